@@ -175,6 +175,21 @@ def run(ctx):
         if kind == "delimited" and index % e2e_every == 0:
             end_to_end(ctx, mon, type_name, empty, length_text, rule, allowed, cells, late_row=(index // e2e_every) % 2 == 1)
     cross_format_memory(ctx)
+    if ctx.mine(1):
+        # the text an Excel date cell is read as ('YYYY-MM-DD 00:00:00', 19 characters) under a date-only rule: whatever
+        # the rule makes of the midnight part, the length guard counts the characters of the cell
+        excel = c02.make_format("excel", ".", "", None)
+        for empty in (False, True):
+            for length_text in ("10", "...18", "8...12", "10, 21...", "19", "10...19", ""):
+                field = c02.construct(ctx, "C03", "DateTime", empty, length_text, "YYYY-MM-DD", excel)
+                if field is None:
+                    continue
+                ctx.count("declarations.excel-date-cells-under-a-length")
+                for cell in ("2024-03-02 00:00:00", "2024-03-02", "2024-03-02 00:00", ""):
+                    try:
+                        field.validated(cell)
+                    except errors.FieldValueError:
+                        pass
     ctx.exhaustive = True
     ctx.note("the product types x flags x length declarations x allowed ranges x formats x guard cells is enumerated completely in both tiers; thorough drives every delimited declaration end-to-end as well")
 
